@@ -14,7 +14,7 @@ RULE = ("generated (structure, table) pairs over every component type and role w
         "double quotes inside String cells and empty-string vs null in String columns. "
         "Bucket = (component type, role, cell class, outcome class, forms materialised); one evaluation = one table across its forms.")
 ASSUMPTIONS = ["a native-dtype form is only produced when every cell of the column has an exact native value"]
-FLOORS = {"quick": (300, 40), "thorough": (6000, 80)}
+FLOORS = {"quick": (120, 40), "thorough": (2500, 80)}
 NSH = 16
 N = {"quick": 30, "thorough": 700}
 
@@ -79,6 +79,10 @@ def run_case(case, emit):
         if rej(o) != rej(ref):
             bad = (f"{ref_form}-{'rejects' if rej(ref) else 'accepts'}-but-{f}-{'rejects' if rej(o) else 'accepts'}", f"csv -> {ref[:2]}, {f} -> {o[:2]}")
             break
+        if rej(o) and o[0] != ref[0]:
+            # both reject, but one with a VTL input error and the other with something else (a crash is not 'the same behaviour')
+            bad = (f"rejection-kind-differs/{ref_form}:{ref[0]}-vs-{f}:{o[0]}", f"csv -> {ref[:3]}, {f} -> {o[:3]}")
+            break
         if o[0] == "ok" and (o[1] != ref[1]):
             bad = (f"values-differ/{ref_form}-vs-{f}", f"csv rows {ref[1]} vs {f} rows {o[1]}")
             break
@@ -93,6 +97,9 @@ def run_shard(spec, emit):
     from vf import eng, inputs
     rng = random.Random(f"C18-{spec['seed']}-{spec['shard']}")
     bud = eng.Budget(spec.get("budget_s", 100 if spec["tier"] == "quick" else 2400))
+    for i, case in enumerate(inputs.cell_sweep()):          # deterministic: every catalogued cell once
+        if i % spec["nshards"] == spec["shard"]:
+            run_case(case, emit)
     for _ in range(spec["n"]):
         if not bud.ok():
             emit({"v": "inc", "why": "cut by wall-clock budget"})
